@@ -47,6 +47,7 @@ type Batch struct {
 	Producer       int64
 	LeaderEpoch    int32
 	SnappyUnframed bool // raw snappy block instead of xerial framing
+	MaxTSMismatch  bool // decoder: header maxTimestamp differs from the largest record timestamp
 }
 
 func (b *Batch) FirstOffset() int64 {
@@ -403,9 +404,8 @@ func DecodeRecordSet(data []byte) ([]Batch, error) {
 			if pr.Remain() != 0 {
 				return out, fmt.Errorf("batch at %d: %d bytes after the last of %d records", base, pr.Remain(), count)
 			}
-			if count > 0 && maxTS != seenMax && maxTS != -1 {
-				return out, fmt.Errorf("batch at %d: maxTimestamp %d but largest record timestamp is %d", base, maxTS, seenMax)
-			}
+			// maxTimestamp is rewritten by brokers on append, so a mismatch is noted, not rejected
+			b.MaxTSMismatch = count > 0 && maxTS != seenMax && maxTS != -1
 			out = append(out, b)
 		default:
 			return out, fmt.Errorf("unknown magic %d", magic)
